@@ -43,6 +43,12 @@ func (rl *RangeLoop) RequireKey() bool {
 
 // SetKey saves key to the context.
 func (rl *RangeLoop) SetKey(val any, ins inspector.Inspector) {
+	if p, ok := val.(*[]byte); ok && len(*p) > 0 {
+		// Inspectors deliver keys in a buffer they overwrite on every iteration (and that all
+		// loops of the context share): keep a private copy.
+		rl.ctx.SetBytes(byteconv.B2S(rl.node.loopKey), *p)
+		return
+	}
 	rl.ctx.Set(byteconv.B2S(rl.node.loopKey), val, ins)
 }
 
